@@ -103,6 +103,13 @@ static void gen_mul(const GenCtx &ctx, Case &c, int viewpct) {
     n = which == 2 ? huge : few2;
   }
   if (square) l = n = m;
+  if (!square && rt->views && r != "_mzd_mul_naive" && r != "djb" && g::coin(1, 25)) {
+    // both factors overlapping views of one region with equal data pointers (documented constraint is only that C differs)
+    m = std::min(m, 400);
+    l = std::min(l, 400);
+    n = std::min(n, 400);
+    c.set("share", 1);
+  }
   c.set("m", m).set("l", l).set("n", n);
   if (rt->param == 1) c.set("k", k);
   if (rt->param == 2) c.set("cutoff", cutoff);
@@ -136,8 +143,11 @@ static Verdict exec_mul(const Case &c) {
   int m = (int)c.i("m"), l = (int)c.i("l"), n = (int)c.i("n");
   bool square = c.i("square", 0);
   int k = (int)c.i("k", 0), cutoff = (int)c.i("cutoff", 0);
-  Mat A = build_pat(c, "A", m, l);
-  Mat B = square ? A : build_pat(c, "B", l, n);
+  bool share = c.i("share", 0) != 0;  // both factors are views of one region, starting at the same origin
+  Mat R;
+  if (share) R = build_pat(c, "A", std::max(m, l), std::max(l, n));
+  Mat A = share ? submatrix(R, 0, 0, m, l) : build_pat(c, "A", m, l);
+  Mat B = share ? submatrix(R, 0, 0, l, n) : square ? A : build_pat(c, "B", l, n);
   Mat P = mul(A, B);
 
   if (r == "djb") {
@@ -163,15 +173,24 @@ static Verdict exec_mul(const Case &c) {
   }
 
   Opnd oa, ob, oc, fresh;
-  x.make(oa, "A", A);
-  if (!square) {
+  mzd_t *wa = nullptr, *wb = nullptr;
+  if (share) {
+    // the region (owned, or itself a window of a junk parent) and two overlapping windows into it with equal data pointers:
+    // "the leading block times its block row"
+    x.make(oa, "A", R);
+    wa = mzd_init_window(oa.M, 0, 0, m, l);
+    wb = mzd_init_window(oa.M, 0, 0, l, n);
+    x.v.label("factors-are-views-of-one-region");
+  } else
+    x.make(oa, "A", A);
+  if (!square && !share) {
     if (r == "_mzd_mul_naive") {
       Mat BT = transpose(B);  // this entry point takes the second factor transposed
       x.make(ob, "B", BT);
     } else
       x.make(ob, "B", B);
   }
-  mzd_t *pa = oa.M, *pb = square ? oa.M : ob.M;
+  mzd_t *pa = share ? wa : oa.M, *pb = share ? wb : square ? oa.M : ob.M;
   bool clear = c.i("clear", 1) != 0;
   bool acc = rt->acc || !clear;
   Mat Cprev;
@@ -200,9 +219,11 @@ static Verdict exec_mul(const Case &c) {
   Mat got = read_mzd(ret);
   x.expect(got, want, r);
   x.v.out(got);
-  x.ro(oa, "A");
-  if (!square) x.ro(ob, "B");
+  x.ro(oa, share ? "shared region of A and B" : "A");
+  if (!square && !share) x.ro(ob, "B");
   x.wr(oc.M ? oc : fresh, "C");
+  if (wa) vf_free_window(wa);
+  if (wb) vf_free_window(wb);
 
   // ---- labels: which regime did the case enter
   bool regime = false;
